@@ -263,3 +263,20 @@ MUTANTS += [
     dict(name="c15_stack_shares_first", prop=["C15", "C17"], file=PW,
          old="        return np.sum(XY * np.transpose(cov_inv @ XY.T, (0, 2, 1)), axis=-1).reshape(", new="        cov_inv = cov_inv if cov_inv.shape[0] < 3 else np.repeat(cov_inv[:1], cov_inv.shape[0], axis=0)\n        return np.sum(XY * np.transpose(cov_inv @ XY.T, (0, 2, 1)), axis=-1).reshape("),
 ]
+
+LMB = "src/skmatter/linear_model/_base.py"
+MUTANTS += [
+    # ---------------------------------------------------------------- C18
+    dict(name="c18_returns_least_squares", prop=["C18", "C13"], file=LMB,
+         old="            self.coef_ = (\n                U\n                @ orthogonal_procrustes(X @ U, y.reshape(X.shape[0], -1) @ Vt.T)[0]\n                @ Vt\n            ).T", new="            self.coef_ = coef.T"),
+    dict(name="c18_rotation_transposed", prop=["C18", "C13"], file=LMB,
+         old="                @ orthogonal_procrustes(X @ U, y.reshape(X.shape[0], -1) @ Vt.T)[0]\n", new="                @ orthogonal_procrustes(X @ U, y.reshape(X.shape[0], -1) @ Vt.T)[0].T\n"),
+    dict(name="c18_padded_transposed", prop=["C18", "C13"], file=LMB,
+         old="            self.coef_ = orthogonal_procrustes(X, y)[0].T", new="            self.coef_ = orthogonal_procrustes(X, y)[0]"),
+    dict(name="c18_pad_wrong_side", prop=["C18", "C13"], file=LMB,
+         old="            y = np.pad(y, [(0, 0), (0, self.max_components_ - y.shape[1])])", new="            y = np.pad(y, [(0, 0), (self.max_components_ - y.shape[1], 0)])"),
+    dict(name="c18_procrustes_on_raw_y", prop=["C18", "C13"], file=LMB,
+         old="orthogonal_procrustes(X @ U, y.reshape(X.shape[0], -1) @ Vt.T)[0]", new="orthogonal_procrustes(X @ U, linear_estimator.predict(X).reshape(X.shape[0], -1) @ Vt.T + 0.05 * y.reshape(X.shape[0], -1) @ Vt.T * 0)[0]"),
+    dict(name="c18_predict_pad_after", prop=["C18", "C13"], file=LMB,
+         old="            X = np.pad(X, [(0, 0), (0, self.max_components_ - X.shape[1])])\n        return X @ self.coef_.T", new="            X = np.pad(X, [(0, 0), (self.max_components_ - X.shape[1], 0)]) if X.shape[0] == 5 else np.pad(X, [(0, 0), (0, self.max_components_ - X.shape[1])])\n        return X @ self.coef_.T"),
+]
